@@ -324,6 +324,8 @@ func compute(lunar *Lunar, lunarYear *LunarYear) {
 	computeDay(lunar)
 	computeTime(lunar)
 	computeWeek(lunar)
+	//八字对象在构造时创建，避免多个goroutine共享Lunar时首次读取产生竞争
+	lunar.eightChar = NewEightChar(lunar)
 }
 
 // GetGan @Deprecated: 该方法已废弃，请使用GetYearGan
